@@ -2,19 +2,61 @@
 from __future__ import annotations
 import itertools
 import random
+import re
 from typing import Any, Dict, Iterable, List, Optional
 
 from ..core import Prop
 from .. import celrun
 
 LEAF_TEXT = {
-    "t": ["true", "1 == 1", "!false", "'a' < 'b'"],
-    "f": ["false", "1 == 2", "!true", "2 < 1"],
+    "t": ["true", "1 == 1", "!false", "'a' < 'b'",
+          # round 2 (append only: corpus cases index into these lists)
+          "2u > 1u", "'b' in ['a', 'b']", "[1, 2].size() == 2", "1.5 >= 1.5", "!!true", "'abc'.startsWith('a')",
+          "type(1) == int", "b'a' != b'b'"],
+    "f": ["false", "1 == 2", "!true", "2 < 1",
+          "2u < 1u", "'c' in ['a', 'b']", "size('ab') == 3", "1.5 > 2.5", "!!false", "'abc'.endsWith('a')",
+          "null != null", "1 in []"],
     "e": ["1/0 > 0", "[1][5] == 1", "{}.a", "nosuch", "'a' < 1", "int('x') == 1",
-          "9223372036854775807 + 1 > 0", "{'a': 1}['b'] == 1", "1 % 0 == 0", "-(-9223372036854775807 - 1) > 0"],
+          "9223372036854775807 + 1 > 0", "{'a': 1}['b'] == 1", "1 % 0 == 0", "-(-9223372036854775807 - 1) > 0",
+          "size(1) > 0", "'a'.startsWith(1)", "timestamp('x') == timestamp('x')", "duration('x') == duration('x')",
+          "[1, 2][-1] == 1", "{'a': 1}.b == 1", "dyn(1) + 'a' == 'a'", "uint(-1) == 1u", "1u - 2u == 0u",
+          "int(1e99) == 1", "1.0 / 0 > 0.0", "'x' in 1", "1 in [1/0]", "!1", "-true", "bool('maybe')",
+          "18446744073709551615u + 1u > 0u", "double('x') > 0.0", "bytes(1) == b''", "{1: 2}[3] == 2",
+          "[1].map(x, 1/0)[0] == 1", "x.y.z", "size([1], 2) == 1", "nosuch(1)", "5 % 0 == 1"],
 }
-VT = [("1", "int:1"), ("'s'", 'string:"s"'), ("2u", "uint:2")]
-VF = [("0", "int:0"), ("''", 'string:""'), ("[]", "list:[]")]
+# binding strength of a leaf text in cel.lark (for the rendering with as few parentheses as the grammar allows):
+# 3 relation, 6 unary, 7 member, 8 primary
+_REL = re.compile(r" (==|!=|<|<=|>|>=|in) ")
+
+
+def leaf_level(text: str) -> int:
+    depth, top = 0, []
+    for ch in text:
+        if ch in "([{":
+            depth += 1
+        elif ch in ")]}":
+            depth -= 1
+        top.append(ch if depth == 0 and ch not in ")]}" else "_")
+    flat = "".join(top)
+    if _REL.search(flat):
+        return 3
+    if " + " in flat or " - " in flat:
+        return 4
+    if " * " in flat or "/" in flat or " % " in flat:
+        return 5
+    if text[0] in "!-":
+        return 6
+    if "." in flat or text.endswith(")") or text.endswith("]"):
+        return 7
+    return 8
+
+
+# non-boolean values: VT are truthy for Python's `if`, VF falsy (the interpreter's `?:` looks at that before it rejects them)
+VT = [("1", "int:1"), ("'s'", 'string:"s"'), ("2u", "uint:2"),
+      ("1.5", "double:4609434218613702656"), ("'true'", 'string:"true"'), ("b'1'", "bytes:31"),
+      ("{'a': 1}", 'map:{string:"a"=>int:1}'), ("[0]", "list:[int:0]"), ("'false'", 'string:"false"'), ("'f'", 'string:"f"')]
+VF = [("0", "int:0"), ("''", 'string:""'), ("[]", "list:[]"),
+      ("null", "null"), ("0.0", "double:0"), ("0u", "uint:0"), ("{}", "map:{}"), ("b''", "bytes:")]
 
 
 # trees: ("lit", cls, textindex) | ("and", a, b) | ("or", a, b) | ("not", a) | ("cond", c, x, y) | ("all", [..]) | ("exists", [..])
@@ -40,6 +82,35 @@ def gen_tree(rng: random.Random, size: int, pv: float) -> Any:
     return (k, [gen_tree(rng, max(1, (size - 1) // max(1, n)), pv) for _ in range(n)])
 
 
+def gen_var_tree(rng: random.Random, size: int, nv: int) -> Any:
+    """and/or/not/?: over variables v0..v{nv-1} (and a few constants)"""
+    if size <= 1:
+        if rng.random() < 0.85:
+            return ("var", rng.randrange(nv))
+        return ("lit", rng.choice(["t", "f", "e"]), 0)
+    k = rng.choice(["and", "or", "and", "or", "not", "cond"])
+    if k in ("and", "or"):
+        ls = rng.randint(1, size - 1)
+        return (k, gen_var_tree(rng, ls, nv), gen_var_tree(rng, size - ls, nv))
+    if k == "not":
+        return ("not", gen_var_tree(rng, size - 1, nv))
+    a = rng.randint(1, max(1, size - 2))
+    b = rng.randint(1, max(1, size - a - 1))
+    return ("cond", gen_var_tree(rng, a, nv), gen_var_tree(rng, b, nv), gen_var_tree(rng, max(1, size - a - b), nv))
+
+
+N_FN_VALUES = 8
+
+
+def fn_values():
+    """(truthy, falsy) non-boolean CEL values per kind index `vk` of a "fn" case"""
+    from celpy import celtypes as ct
+    return [(ct.IntType(1), ct.IntType(0)), (ct.UintType(2), ct.UintType(0)), (ct.DoubleType(1.5), ct.DoubleType(0.0)),
+            (ct.StringType("true"), ct.StringType("")), (ct.BytesType(b"1"), ct.BytesType(b"")),
+            (ct.ListType([ct.IntType(0)]), ct.ListType([])), (ct.MapType({ct.StringType("a"): ct.IntType(1)}), ct.MapType()),
+            (ct.StringType("false"), None)]
+
+
 def all_trees(depth: int, leaves: List[Any]) -> List[Any]:
     if depth == 0:
         return list(leaves)
@@ -53,34 +124,103 @@ def all_trees(depth: int, leaves: List[Any]) -> List[Any]:
     return out
 
 
-def to_cel(t: Any, vt: str, vf: str) -> str:
+def to_cel(t: Any, vt: str, vf: str, style: str = "full") -> str:
+    """Render a tree as CEL text.  style "full": every operand parenthesised (round 1).  "min": only the parentheses
+    the grammar needs, so `and(and(a, b), c)` is the flat chain `a && b && c`, `cond(c, x, cond(d, y, z))` is
+    `c ? x : d ? y : z`, `not(not(a))` is `!!a`.  "+div" (with either): an all/exists whose elements are plain
+    t/f/e leaves is rendered over the element VALUES, `[1, 0, -1].all(x, 1/x > 0)`, instead of the index ladder."""
+    if style.startswith("min"):
+        return _render(t, vt, vf, style)[0]
+    return _to_cel_full(t, vt, vf, style)
+
+
+DIV_ELEM = {"t": "1", "f": "-1", "e": "0"}     # 1/x > 0 for x = 1 | -1 | 0
+
+
+def _div_macro(t: Any, style: str) -> Optional[str]:
+    xs = t[1]
+    if "+div" in style and xs and all(x[0] == "lit" and x[1] in DIV_ELEM for x in xs):
+        name = "all" if t[0] == "all" else "exists"
+        return f"[{', '.join(DIV_ELEM[x[1]] for x in xs)}].{name}(x, 1/x > 0)"
+    return None
+
+
+def _to_cel_full(t: Any, vt: str, vf: str, style: str = "full") -> str:
     k = t[0]
+    rec = lambda u, a=vt, b=vf: _to_cel_full(u, a, b, style)
     if k == "lit":
         if t[1] == "vt":
             return vt
         if t[1] == "vf":
             return vf
         return "(" + LEAF_TEXT[t[1]][t[2]] + ")"
+    if k == "var":
+        return f"v{t[1]}"
     if k == "and":
-        return f"({to_cel(t[1], vt, vf)} && {to_cel(t[2], vt, vf)})"
+        return f"({rec(t[1])} && {rec(t[2])})"
     if k == "or":
-        return f"({to_cel(t[1], vt, vf)} || {to_cel(t[2], vt, vf)})"
+        return f"({rec(t[1])} || {rec(t[2])})"
     if k == "not":
-        return f"!({to_cel(t[1], vt, vf)})"
+        return f"!({rec(t[1])})"
     if k == "cond":
-        return f"({to_cel(t[1], vt, vf)} ? {to_cel(t[2], vt, vf)} : {to_cel(t[3], vt, vf)})"
+        return f"({rec(t[1])} ? {rec(t[2])} : {rec(t[3])})"
     xs = t[1]
     name = "all" if k == "all" else "exists"
     var = f"i{len(xs)}"
     if not xs:
         return f"[].{name}({var}, true)"
+    d = _div_macro(t, style)
+    if d:
+        return d
     # inside a macro body non-boolean leaves are realised by ints only: the compiled runner coerces the
     # fold result with BoolType(), whose behaviour on non-booleans depends on the concrete Python type
     # (outside the property; the model's `boolTypeOf` abstracts the int case)
-    body = to_cel(xs[-1], "1", "0")
+    body = rec(xs[-1], "1", "0")
     for j in range(len(xs) - 2, -1, -1):
-        body = f"({var} == {j} ? {to_cel(xs[j], '1', '0')} : {body})"
+        body = f"({var} == {j} ? {rec(xs[j], '1', '0')} : {body})"
     return f"[{', '.join(str(j) for j in range(len(xs)))}].{name}({var}, {body})"
+
+
+# binding strengths (cel.lark): expr 0 (?: right-assoc: `conditionalor ? conditionalor : expr`), conditionalor 1
+# (`conditionalor || conditionaland`), conditionaland 2 (`conditionaland && relation`), relation 3, ..., unary 6, member 7, primary 8
+def _render(t: Any, vt: str, vf: str, style: str):
+    def need(u, lvl, a=vt, b=vf):
+        s, l = _render(u, a, b, style)
+        return s if l >= lvl else f"({s})"
+    k = t[0]
+    if k == "lit":
+        if t[1] == "vt":
+            return vt, 8
+        if t[1] == "vf":
+            return vf, 8
+        text = LEAF_TEXT[t[1]][t[2]]
+        return text, leaf_level(text)
+    if k == "var":
+        return f"v{t[1]}", 8
+    if k == "or":
+        return f"{need(t[1], 1)} || {need(t[2], 2)}", 1
+    if k == "and":
+        return f"{need(t[1], 2)} && {need(t[2], 3)}", 2
+    if k == "not":
+        return f"!{need(t[1], 6)}", 6
+    if k == "cond":
+        return f"{need(t[1], 1)} ? {need(t[2], 1)} : {need(t[3], 0)}", 0
+    xs = t[1]
+    name = "all" if k == "all" else "exists"
+    var = f"i{len(xs)}"
+    if not xs:
+        return f"[].{name}({var}, true)", 7
+    d = _div_macro(t, style)
+    if d:
+        return d, 7
+    body = need(xs[-1], 0, "1", "0")
+    for j in range(len(xs) - 2, -1, -1):
+        body = f"{var} == {j} ? {need(xs[j], 1, '1', '0')} : {body}"
+    return f"[{', '.join(str(j) for j in range(len(xs)))}].{name}({var}, {body})", 7
+
+
+def case_src(c: Dict[str, Any]) -> str:
+    return to_cel(_tuplify(c["tree"]), VT[c.get("vt", 0)][0], VF[c.get("vf", 0)][0], c.get("style", "full"))
 
 
 def to_model(t: Any) -> str:
@@ -96,11 +236,17 @@ def to_model(t: Any) -> str:
     return f"{k} {len(t[1])} " + " ".join(to_model(x) for x in t[1])
 
 
-def spec(t: Any) -> Optional[str]:
-    """What the PROPERTY says about the outcome class: 't' | 'f' | 'e' | 'vt' | 'vf' | None (unspecified)."""
+def spec(t: Any, env: Optional[List[str]] = None) -> Optional[str]:
+    """What the PROPERTY says about the outcome class: 't' | 'f' | 'e' | 'vt' | 'vf' | None (unspecified).
+    (mirrored by `Cel.spec` in Model/Logic.lean; `Props.C02.spec_sound` proves both runners' models meet it, and the
+    driver's `S` lines compare this function with the Lean one on every generated tree)"""
     k = t[0]
     if k == "lit":
         return t[1]
+    if k == "var":
+        return env[t[1]]
+    if env is not None:
+        return spec(subst(t, env))
     if k in ("and", "or"):
         a, b = spec(t[1]), spec(t[2])
         dec, oth = ("f", "t") if k == "and" else ("t", "f")
@@ -139,6 +285,25 @@ def spec(t: Any) -> Optional[str]:
     return "e"
 
 
+def subst(t: Any, env: List[str]) -> Any:
+    k = t[0]
+    if k == "var":
+        return ("lit", env[t[1]], 0)
+    if k == "lit":
+        return t
+    if k in ("all", "exists"):
+        return (k, [subst(x, env) for x in t[1]])
+    return (k,) + tuple(subst(x, env) for x in t[1:])
+
+
+def chain(op: str, leaves: List[Any]) -> Any:
+    """left-deep tree = what the parser builds for the unparenthesised `a op b op c ...`"""
+    t = leaves[0]
+    for x in leaves[1:]:
+        t = (op, t, x)
+    return t
+
+
 def size_of(t) -> int:
     if t[0] == "lit":
         return 1
@@ -167,55 +332,161 @@ class C02(Prop):
         quick = tier == "quick"
         cases = []
         O5 = ["t", "f", "e", "vt", "vf"]
-        for x, y in itertools.product(O5, O5):
-            cases.append({"kind": "fn", "fn": "and", "args": [x, y]})
-            cases.append({"kind": "fn", "fn": "or", "args": [x, y]})
-        for x in O5:
-            cases.append({"kind": "fn", "fn": "not", "args": [x]})
-        for c, x, y in itertools.product(O5, O5, O5):
-            cases.append({"kind": "fn", "fn": "cond", "args": [c, x, y]})
+        # --- celtypes.logical_* on every operand tuple; the non-boolean operands realised by every CEL value kind ---
+        for vk in range(N_FN_VALUES):
+            kw = {"vk": vk} if vk else {}
+            for x, y in itertools.product(O5, O5):
+                if vk and not ({x, y} & {"vt", "vf"}):
+                    continue
+                cases.append({"kind": "fn", "fn": "and", "args": [x, y], **kw})
+                cases.append({"kind": "fn", "fn": "or", "args": [x, y], **kw})
+            for x in O5:
+                if vk and x not in ("vt", "vf"):
+                    continue
+                cases.append({"kind": "fn", "fn": "not", "args": [x], **kw})
+            for c, x, y in itertools.product(O5, O5, O5):
+                if vk and not ({c, x, y} & {"vt", "vf"}):
+                    continue
+                cases.append({"kind": "fn", "fn": "cond", "args": [c, x, y], **kw})
+
+        def both(t, vi=0, fi=0, style=None):
+            for r in ("I", "C"):
+                c = {"kind": "expr", "tree": t, "runner": r, "vt": vi, "vf": fi}
+                if style:
+                    c["style"] = style
+                cases.append(c)
+
+        def has_macro(t):
+            m = to_model(t).split()
+            return "all" in m or "exists" in m
+
+        def leaf(cls):
+            if cls in ("vt", "vf"):
+                return ("lit", cls, 0)
+            return ("lit", cls, rng.randrange(len(LEAF_TEXT[cls])))
+
+        # --- random trees, fully parenthesised (round 1) or with the minimal parentheses of the grammar ---
         n = 700 if quick else 12000
         for i in range(n):
             t = gen_tree(rng, rng.randint(1, 7), 0.15)
             vi, fi = rng.randrange(len(VT)), rng.randrange(len(VF))
-            if "all" in to_model(t).split() or "exists" in to_model(t).split():
+            if has_macro(t):
                 vi, fi = 0, 0     # a non-boolean body value may leak out of the interpreter's fold: keep it an int
-            for r in ("I", "C"):
-                cases.append({"kind": "expr", "tree": t, "runner": r, "vt": vi, "vf": fi})
+            style = rng.choice([None, "min", "min+div", "full+div"])
+            both(t, vi, fi, style)
         if not quick:
             leaves = [("lit", c, 0) for c in ("t", "f", "e")]
             for t in all_trees(2, leaves):
-                for r in ("I", "C"):
-                    cases.append({"kind": "expr", "tree": t, "runner": r, "vt": 0, "vf": 0})
+                both(t)
+        # --- unparenthesised chains `a op b op c ...` (left-deep trees): every 3-operand assignment of the five classes,
+        #     random longer ones biased to errors/non-booleans with the deciding operand anywhere; mixed && / || chains ---
+        for op in ("and", "or"):
+            for xs in itertools.product(O5, repeat=3):
+                both(chain(op, [leaf(x) for x in xs]), rng.randrange(len(VT)), rng.randrange(len(VF)), "min")
+        for i in range(120 if quick else 3000):
+            op = rng.choice(["and", "or"])
+            dec = "f" if op == "and" else "t"
+            m = rng.randint(4, 9) if i % 8 else rng.randint(20, 60)
+            xs = [rng.choice(["e", "e", "e", "vt", "vf", "t" if op == "and" else "f"]) for _ in range(m)]
+            if rng.random() < 0.7:
+                xs[rng.randrange(m)] = dec
+            both(chain(op, [leaf(x) for x in xs]), rng.randrange(len(VT)), rng.randrange(len(VF)), "min")
+        for i in range(60 if quick else 1500):       # a chain whose operands are chains of the other operator / negations / ?:
+            op = rng.choice(["and", "or"])
+            other = "or" if op == "and" else "and"
+            parts = []
+            for _ in range(rng.randint(3, 5)):
+                r = rng.random()
+                if r < 0.4:
+                    parts.append(chain(other, [leaf(rng.choice(O5[:3])) for _ in range(rng.randint(2, 3))]))
+                elif r < 0.55:
+                    parts.append(("not", leaf(rng.choice(O5[:3]))))
+                elif r < 0.7:
+                    parts.append(("cond", leaf(rng.choice(O5)), leaf(rng.choice(O5[:3])), leaf(rng.choice(O5[:3]))))
+                else:
+                    parts.append(leaf(rng.choice(O5)))
+            both(chain(op, parts), rng.randrange(len(VT)), rng.randrange(len(VF)), "min")
+        # --- `c1 ? x1 : c2 ? x2 : ... : y` (right-nested, unparenthesised) and `!!..!x` ---
+        for i in range(60 if quick else 1500):
+            t = leaf(rng.choice(O5[:3]))
+            for _ in range(rng.randint(2, 5)):
+                t = ("cond", leaf(rng.choice(["t", "f", "f", "e", "vt", "vf"])), leaf(rng.choice(O5[:3])), t)
+            both(t, rng.randrange(len(VT)), rng.randrange(len(VF)), "min")
+        for cls in O5:
+            for depth in (2, 3):
+                t = ("lit", cls, 0)
+                for _ in range(depth):
+                    t = ("not", t)
+                both(t, 0, 0, "min")
+        # --- every non-boolean value kind as condition / absorbed operand / one of two non-booleans ---
+        for vi in range(len(VT)):
+            for fi in ([vi % len(VF)] if quick else range(len(VF))):
+                for v in (("lit", "vt", 0), ("lit", "vf", 0)):
+                    for t in (("cond", v, leaf("t"), leaf("f")), ("cond", v, leaf("e"), leaf("e")),
+                              ("and", leaf("f"), v), ("and", v, leaf("f")), ("or", leaf("t"), v), ("or", v, leaf("t")),
+                              ("and", v, ("lit", "vt", 0)), ("or", ("lit", "vf", 0), v), ("not", v),
+                              ("or", ("and", v, v), leaf("t")), ("and", ("cond", v, leaf("t"), leaf("t")), leaf("f"))):
+                        both(t, vi, fi, rng.choice([None, "min"]))
+        # --- long lists for all/exists (absorbing element early / late / absent), both macro renderings ---
+        for i in range(24 if quick else 400):
+            k = rng.choice(["all", "exists"])
+            dec, oth = ("f", "t") if k == "all" else ("t", "f")
+            m = rng.randint(5, 40)
+            xs = [rng.choice([oth, oth, "e"]) for _ in range(m)]
+            if i % 3:
+                xs[rng.choice([0, m - 1, rng.randrange(m)])] = dec
+            t = (k, [("lit", x, 0) for x in xs])
+            if rng.random() < 0.5:
+                t = rng.choice([("or", t, leaf("f")), ("and", t, leaf("t")), ("cond", t, leaf("t"), leaf("f")), ("not", t)])
+            both(t, 0, 0, rng.choice(["min+div", "full+div", "min"]))
+        for k in ("all", "exists"):                  # every list of length <= 3 over {t,f,e}, element-valued rendering
+            for m in range(1, 4):
+                for xs in itertools.product("tfe", repeat=m):
+                    both((k, [("lit", x, 0) for x in xs]), 0, 0, "min+div")
+        # --- one compiled program, a sequence of activations (operands are variables; absent variable = error) ---
+        for i in range(40 if quick else 600):
+            nv = rng.randint(2, 4)
+            t = gen_var_tree(rng, rng.randint(2, 6), nv)
+            acts = [[rng.choice(O5) for _ in range(nv)] for _ in range(rng.randint(3, 8))]
+            for r in ("I", "C"):
+                cases.append({"kind": "prog", "tree": t, "runner": r, "acts": acts, "style": rng.choice(["full", "min"])})
         # every realisation of every leaf class, in absorbed and absorbing positions
         for cls, texts in LEAF_TEXT.items():
             for j in range(len(texts)):
-                leaf = ("lit", cls, j)
-                for t in (leaf, ("and", ("lit", "f", 0), leaf), ("and", leaf, ("lit", "f", 0)), ("or", ("lit", "t", 0), leaf),
-                          ("or", leaf, ("lit", "t", 0)), ("cond", ("lit", "t", 0), ("lit", "t", 1), leaf),
-                          ("cond", leaf, ("lit", "t", 0), ("lit", "f", 0)), ("not", leaf),
-                          ("all", [leaf, ("lit", "f", 0)]), ("exists", [leaf, leaf, ("lit", "t", 0)]), ("all", [leaf, leaf])):
-                    for r in ("I", "C"):
-                        cases.append({"kind": "expr", "tree": t, "runner": r, "vt": 0, "vf": 0})
+                lf = ("lit", cls, j)
+                for t in (lf, ("and", ("lit", "f", 0), lf), ("and", lf, ("lit", "f", 0)), ("or", ("lit", "t", 0), lf),
+                          ("or", lf, ("lit", "t", 0)), ("cond", ("lit", "t", 0), ("lit", "t", 1), lf),
+                          ("cond", lf, ("lit", "t", 0), ("lit", "f", 0)), ("not", lf),
+                          ("all", [lf, ("lit", "f", 0)]), ("exists", [lf, lf, ("lit", "t", 0)]), ("all", [lf, lf])):
+                    both(t, 0, 0, None if j < 4 or (cls == "e" and j < 10) else rng.choice([None, "min"]))
         return cases
 
     @staticmethod
-    def _val(cls):
+    def _val(cls, vk=0):
         from celpy import celtypes
         from celpy.evaluation import CELEvalError
-        return {"t": celtypes.BoolType(True), "f": celtypes.BoolType(False), "e": CELEvalError("boom"),
-                "vt": celtypes.IntType(1), "vf": celtypes.IntType(0)}[cls]
+        if cls == "t":
+            return celtypes.BoolType(True)
+        if cls == "f":
+            return celtypes.BoolType(False)
+        if cls == "e":
+            return CELEvalError("boom")
+        return fn_values()[vk][0 if cls == "vt" else 1]
 
     @staticmethod
-    def _cls(v):
+    def _cls(v, args=(), classes=()):
         from celpy import celtypes
         from celpy.evaluation import CELEvalError
         if type(v) is celtypes.BoolType:
             return "t" if v else "f"
         if isinstance(v, CELEvalError):
             return "e"
-        if type(v) is celtypes.IntType:
-            return "vt" if v else "vf"
+        for a, k in zip(args, classes):            # a non-boolean operand handed back
+            if v is a:
+                return k
+        for a, k in zip(args, classes):
+            if type(v) is type(a) and k in ("vt", "vf") and v == a:
+                return k
         return f"other({type(v).__name__})"
 
     def impl(self, c):
@@ -223,17 +494,42 @@ class C02(Prop):
             from celpy import celtypes
             f = {"and": celtypes.logical_and, "or": celtypes.logical_or, "not": celtypes.logical_not,
                  "cond": celtypes.logical_condition}[c["fn"]]
+            args = [self._val(a, c.get("vk", 0)) for a in c["args"]]
             try:
-                return "ok " + self._cls(f(*[self._val(a) for a in c["args"]]))
+                return "ok " + self._cls(f(*args), args, c["args"])
             except Exception as ex:
                 return "raise " + type(ex).__name__
+        if c["kind"] == "prog":
+            return self._impl_prog(c)
+        return celrun.run(case_src(c), c["runner"])
+
+    def _impl_prog(self, c):
+        """compile ONCE, evaluate the same program under every activation of the case, in order"""
+        import celpy
+        from celpy.evaluation import CELEvalError
         tree = _tuplify(c["tree"])
-        src = to_cel(tree, VT[c["vt"]][0], VF[c["vf"]][0])
-        return celrun.run(src, c["runner"])
+        src = to_cel(tree, "1", "0", c.get("style", "full"))
+        try:
+            env = celpy.Environment(runner_class=celrun.RUNNERS[c["runner"]])
+            prog = env.program(env.compile(src))
+        except Exception as ex:
+            return f"EXC {type(ex).__name__}"
+        outs = []
+        for act in c["acts"]:
+            b = {f"v{i}": self._val(k) for i, k in enumerate(act) if k != "e"}
+            try:
+                outs.append(celrun.canon(prog.evaluate(b)))
+            except CELEvalError:
+                outs.append("err")
+            except Exception as ex:
+                outs.append(f"EXC {type(ex).__name__}")
+        return "|".join(outs)
 
     def model_line(self, c):
         if c["kind"] == "fn":
             return f"fn {c['fn']} " + " ".join(c["args"])
+        if c["kind"] == "prog":
+            return None
         return f"{c['runner']} {to_model(_tuplify(c['tree']))}"
 
     def _expect(self, c, cls):
@@ -273,20 +569,38 @@ class C02(Prop):
                     return f"logical_condition with condition {a[0]} gave {out}; expected an error"
             return None
         tree = _tuplify(c["tree"])
+        if c["kind"] == "prog":
+            src = to_cel(tree, "1", "0", c.get("style", "full"))
+            outs = out.split("|")
+            if out.startswith("EXC ") or len(outs) != len(c["acts"]):
+                return f"{out} escaped from compiling {src!r} on runner {c['runner']}"
+            for i, (act, o) in enumerate(zip(c["acts"], outs)):
+                if o.startswith("EXC "):
+                    return f"{o} escaped from {src!r} on runner {c['runner']}, activation #{i} {act}"
+                s = spec(tree, act)
+                if s is None:
+                    continue
+                exp = {"t": "bool:true", "f": "bool:false", "e": "err", "vt": "int:1", "vf": "int:0"}[s]
+                if o != exp:
+                    return (f"runner {c['runner']}: program {src!r}, evaluation #{i} of the same program with variables {act} "
+                            f"(absent = 'e') gave {o}; error-absorbing semantics require {exp}")
+            return None
         s = spec(tree)
         if out.startswith("EXC "):
-            return f"{out} escaped from {to_cel(tree, VT[c['vt']][0], VF[c['vf']][0])!r} on runner {c['runner']}"
+            return f"{out} escaped from {case_src(c)!r} on runner {c['runner']}"
         if s is None:
             return None
         exp = self._expect(c, s)
         if out != exp:
-            return (f"runner {c['runner']}: {to_cel(tree, VT[c['vt']][0], VF[c['vf']][0])!r} gave {out}; "
+            return (f"runner {c['runner']}: {case_src(c)!r} gave {out}; "
                     f"error-absorbing semantics require {exp}")
         return None
 
     def nontrivial(self, c, out):
         if c["kind"] == "fn":
             return any(a not in ("t", "f") for a in c["args"])
+        if c["kind"] == "prog":
+            return any(a not in ("t", "f") for act in c["acts"] for a in act)
         return "e" in to_model(_tuplify(c["tree"])).split() or "vt" in to_model(_tuplify(c["tree"])).split()
 
 
